@@ -97,6 +97,8 @@ class CtlWorld:
         self.answered = [0] * len(self.sessions)
         self.precond = {}  # (session, k) -> what was in progress when the waiting line was sent
         self.closer_started = False
+        self.appw = None  # application code waiting in pool.until_closed() (and giving up: cancelled)
+        self.appw_cancelled = False
 
     def v(self, key, *detail):
         self.viol.append(("C18", key) + detail)
@@ -115,7 +117,7 @@ class CtlWorld:
     def __canon__(self):
         return (
             sorted(self.gates.items()), self.live, self.cb_open, tuple(self.sent), tuple(self.answered),
-            self.closed, self.closer_started, self.closer, len(self.viol),
+            self.closed, self.closer_started, self.closer, self.appw, self.appw_cancelled, len(self.viol),
             [(s.reader._buffer.decode(), s.reader._eof, tuple(s.writer.writes), s.task) for s in self.sessions],
         )
 
@@ -191,6 +193,11 @@ class CtlWorld:
                     acts.append(("send", i))
         if self.scen.get("closer") and not self.closer_started:
             acts.append(("close",))
+        if self.scen.get("app_waiter"):
+            if self.appw is None:
+                acts.append(("appwait",))
+            elif not self.appw.done() and not self.appw_cancelled:
+                acts.append(("appcancel",))
         for gk in sorted(self.gates):
             if not self.gates[gk].done():
                 acts.append(("fin", gk))
@@ -207,6 +214,12 @@ class CtlWorld:
                 self.loop.step()
             elif act[0] == "fin":
                 self.gates[act[1]].set_result(None)
+            elif act[0] == "appwait":
+                self.appw = asyncio.Task(self.pool.until_closed(), loop=self.loop, eager_start=True, name="appw")
+                self.loop.tasks.append(self.appw)
+            elif act[0] == "appcancel":
+                self.appw_cancelled = True
+                self.appw.cancel()
             elif act[0] == "close":
                 self.closer_started = True
                 self.closer = asyncio.Task(self.pool.gather_and_close(), loop=self.loop, eager_start=True, name="closer")
